@@ -43,15 +43,15 @@ type C14Blob struct {
 }
 
 type c14Write struct {
-	op     *Op
-	blob   int
-	tract  int
-	off    int64 // in the tract
-	n      int
-	wid    int
-	rec    *WriteRec
-	nWrite int // Write RPCs this operation issued
-	okWrites int // Write RPCs of this operation that a replica accepted
+	op        *Op
+	blob      int
+	tract     int
+	off       int64 // in the tract
+	n         int
+	wid       int
+	rec       *WriteRec
+	nWrite    int // Write RPCs this operation issued
+	okWrites  int // Write RPCs of this operation that a replica accepted
 	statClass int // class the last delivered StatBlob reply reported (-1 none)
 }
 
@@ -349,7 +349,7 @@ func (d *C14) NewBlob(repl, nt int, warm bool, lens []int) *C14Blob {
 	h := blb.VerifBlob(d.Cl.Cli[1], id)
 	type sw struct {
 		tract, wid, n int
-		off          int64
+		off           int64
 	}
 	var sws []sw
 	for t := 0; t < nt; t++ {
@@ -1017,9 +1017,9 @@ func (d *C14) ReadProbe(blob, tract int, off int64, n int) {
 
 type C14Weights struct {
 	Deliver, Write, Round, Restart, Leader, Heartbeat, Read, Fix int
-	PLose, PFail, PTwice                                   int // per mille
-	PPackFail                                              int
-	MaxRounds                                              int
+	PLose, PFail, PTwice                                         int // per mille
+	PPackFail                                                    int
+	MaxRounds                                                    int
 }
 
 func C14DefaultWeights() C14Weights {
